@@ -13,8 +13,8 @@ package invoices_test
 // Circuit keys: the model's circuits 1..4 stand for concrete (short channel
 // id, HTLC id) pairs chosen by the behaviour's key pattern kp (c15KeyOf, the
 // value classes of spec/InvoiceRegistry KeyOf): confirmed scids, alias scids
-// (>= 2^63), the int64 boundary, 2^64-1, large HTLC ids, keys that differ in
-// one component only.  The Reset record reports the classes of the keys used.
+// (>= 2^63), the int64 boundary, 2^64-1, large HTLC ids (< 2^63: the ids are
+// per-channel counters), keys that differ in one component only.  The Reset record reports the classes of the keys used.
 //
 // The interceptor client (the REAL HtlcModificationInterceptor with a
 // registered client) answers CancelSet for the HTLCs whose event has cs = 1.
@@ -185,11 +185,11 @@ func c15KeyOf(kp string, c int) invpkg.CircuitKey {
 	case "chanonly":
 		ch, id = pick("low", "alias", "i63m", "i63"), "same"
 	case "edge":
-		ch, id = pick("i63m", "i63", "max", "max"), pick("n", "n", "n", "max")
+		ch, id = pick("i63m", "i63", "max", "max"), pick("n", "n", "n", "i63m")
 	case "bigid":
-		ch, id = pick("low", "low", "alias", "alias"), pick("i63m", "i63", "i63n", "max")
+		ch, id = pick("low", "low", "alias", "alias"), pick("i63m", "bign", "bign", "i63m")
 	case "mixed":
-		ch, id = pick("alias", "low", "alias2", "alias"), pick("n", "n", "n", "i63n")
+		ch, id = pick("alias", "low", "alias2", "alias"), pick("n", "n", "n", "i32n")
 	default:
 		panic("unknown key pattern " + kp)
 	}
@@ -199,14 +199,12 @@ func c15KeyOf(kp string, c int) invpkg.CircuitKey {
 		n = uint64(c)
 	case "same":
 		n = 7
+	case "i32n":
+		n = 1<<32 + uint64(c)
+	case "bign":
+		n = c15I63 - 1 - uint64(c)
 	case "i63m":
-		n = c15I63 - 1
-	case "i63":
-		n = c15I63
-	case "i63n":
-		n = c15I63 + uint64(c)
-	case "max":
-		n = ^uint64(0)
+		n = c15I63 - 1 // the largest id the SQL schema (BIGINT) can hold
 	}
 	return invpkg.CircuitKey{ChanID: c15Chans[ch], HtlcID: n}
 }
@@ -225,14 +223,12 @@ func c15KeyClass(key invpkg.CircuitKey) verifkit.Rec {
 		id = "same"
 	case x >= 1 && x <= c15NC:
 		id, n = "n", int(x)
+	case x > (1<<32) && x <= (1<<32)+c15NC:
+		id, n = "i32n", int(x-(1<<32))
 	case x == c15I63-1:
 		id = "i63m"
-	case x == c15I63:
-		id = "i63"
-	case x > c15I63 && x <= c15I63+c15NC:
-		id, n = "i63n", int(x-c15I63)
-	case x == ^uint64(0):
-		id = "max"
+	case x >= c15I63-1-c15NC && x < c15I63-1:
+		id, n = "bign", int(c15I63-1-x)
 	}
 	return verifkit.Rec{"ch": ch, "id": id, "n": n}
 }
